@@ -68,7 +68,7 @@ def parse_digest(a):
     d = {}
     for tok in a[3:].split():
         k, v = tok.split("=")
-        d[k] = int(v)
+        d[k] = int(v) if not v.startswith("x") else v
     return d
 
 
@@ -86,6 +86,7 @@ def children_requests(run):
         picks += [(0, 9), (rng.choice(base), 11), (rng.choice(base), 12)]
         r = rng.randint(1, 16)
         picks.append((gen.rand_cell(rng, r), r + 13))          # 4^13 = 6.7e7 ids (512 MiB): the largest single result explored
+        picks.append((0, 11))                                  # ... and 60 * 4^10 = 6.3e7 ids across all quintant blocks
     for c, R in picks:
         out.append((f"digest cell_to_children {c} {R}", expected_digest([c], R)))
     return out
@@ -266,7 +267,7 @@ def boundary_requests(run, antimeridian_cells=None):
         # rings of more than 2^20 points on cells that cross the antimeridian (the unwrapping must act on the ring as a whole)
         for n in ([262144] if run.quick else [209716, 262144, 524288]):
             c = rng.choice(antimeridian_cells)
-            out.append((f"digest cell_to_boundary {c} {rng.randint(0, 1)} {n}", (5 * n + 1, None, None)))
+            out.append((f"digest cell_to_boundary {c} {rng.randint(0, 1)} {n}", (5 * n + 1, None, "nonpolar")))
     return out
 
 
@@ -294,6 +295,12 @@ def check(run, items, label, profiles=("release",), count_only=False):
         closed = " 1 " in q
         if "cell_to_boundary" in q:
             n = n if closed else n - 1
+        if "cell_to_boundary" in q and isinstance(d.get("span"), str):
+            from . import geo
+            sp = geo.fx(d["span"])
+            if sp >= 180.0 and exp[2] == "nonpolar":
+                run.violation(f"ring longitudes span {sp:.3f} degrees although the cell does not touch a pole (antimeridian not unwrapped)", q, a[:200])
+                continue
         if d["n"] != n:
             run.violation(f"{d['n']} elements returned where the cell tree / the requested subdivision gives exactly {n}", q if len(q) < 100000 else short, a[:200])
         elif s is not None and not count_only and (d.get("s"), d.get("x")) != (s, x):
